@@ -47,6 +47,7 @@ RULE = (
     "pages; distinct by (configuration, route kind); foreign-header probe cases distinct by header set"
 )
 PARTIAL = [
+    "HttpServerCapabilities has no field for VGI-Proxy-Proof-Required / VGI-Token-Introspection: the probe cannot read those two settings back (headers themselves are checked)",
     "cache_expires_at (a monotonic clock reading) is outside the model",
     "a non-integral sticky_default_ttl is advertised truncated (int()); the exactness oracle demands the decimal value only for integral TTLs",
 ]
@@ -482,7 +483,7 @@ def run(ctx: Any) -> None:
     thorough = ctx.tier == "thorough"
     bits = all_bits()
     prefixes = ["", "/vgi", "/a/b"]
-    n_kinds = 8 if thorough else (6 if ctx.deep else 2)
+    n_kinds = 8 if thorough else (6 if ctx.deep else 3)
     thirds = [0, 1, 9, 2] if thorough else [ctx.seed % 12]  # (config-without-backend, zstd-disabled) in all four combinations
     n = 0
     for third in thirds:
